@@ -124,3 +124,34 @@ func parseSemver(value string) (major, minor, patch int, err error) {
 	patch, _ = strconv.Atoi(m[3])
 	return major, minor, patch, nil
 }
+
+// semverParts splits a canonical semver string into its MAJOR, MINOR and
+// PATCH components as decimal strings, or reports ok=false when value is not
+// canonical (same grammar as [parseSemver]).
+func semverParts(value string) (parts [3]string, ok bool) {
+	m := semverRegex.FindStringSubmatch(value)
+	if m == nil {
+		return parts, false
+	}
+	return [3]string{m[1], m[2], m[3]}, true
+}
+
+// compareSemverPart orders two canonical components numerically. Canonical
+// components carry no leading zeros, so a longer string is a larger number
+// and equal lengths order lexicographically — no integer conversion, hence
+// no overflow for components beyond the int range.
+func compareSemverPart(a, b string) int {
+	if len(a) != len(b) {
+		if len(a) < len(b) {
+			return -1
+		}
+		return 1
+	}
+	switch {
+	case a < b:
+		return -1
+	case a > b:
+		return 1
+	}
+	return 0
+}
